@@ -1,5 +1,5 @@
 PROPERTY = {'id': 'C11',
- 'extra': ['bounded.run_corpus.run'],
+ 'extra': ['bounded.run_corpus.run', 'bounded.c11_fresh.run'],
  'contract_modules': ['directive', 'doctest_example', 'util_stream', 'checker', 'doctest_part', 'runner'],
  'functions': ['xdoctest.directive:RuntimeState.__init__#concrete', 'xdoctest.directive:RuntimeState.update#concrete', 'xdoctest.directive:RuntimeState.set_report_style#concrete', 'xdoctest.directive:Directive.effects', 'xdoctest.directive:_is_requires_satisfied', 'xdoctest.doctest_example:DocTest.run', 'xdoctest.utils.util_stream:CaptureStdout.__init__', 'xdoctest.utils.util_stream:CaptureStdout.start', 'xdoctest.utils.util_stream:CaptureStdout.stop', 'xdoctest.utils.util_stream:CaptureStdout.__enter__', 'xdoctest.utils.util_stream:CaptureStdout.__exit__', 'xdoctest.utils.util_stream:CaptureStdout.log_part', 'xdoctest.utils.util_stream:TeeStringIO.__init__',
                'xdoctest.doctest_example:DocTest._post_run',
